@@ -21,7 +21,7 @@ def _del_lines(text, first, last):
 def mutate(ws, rel, text, rng, names):
     """returns (new_text, op) — one edit of a document"""
     m = FileModel(text)
-    ops = ["add_fixture", "add_usage", "shift", "resend", "resend", "only_undeclared", "plain_file"]
+    ops = ["add_fixture", "add_usage", "shift", "resend", "resend", "only_undeclared", "plain_file", "swap_blank_line", "swap_blank_line"]
     if m.ok:
         if m.defs:
             ops += ["remove_fixture", "rename_fixture", "remove_all_fixtures", "toggle_selfparam"] * 2
@@ -32,6 +32,16 @@ def mutate(ws, rel, text, rng, names):
             ops += ["imports_only"] * 2
         ops += ["break_truncate", "break_paren", "add_undeclared_use"]
     op = rng.choice(ops)
+    if op == "swap_blank_line":
+        # a blank line changes places with the non-blank line after it: same bytes, same length, other line starts
+        ls = text.split("\n")
+        cand = [i for i in range(len(ls) - 2) if ls[i] == "" and ls[i + 1].strip() and not ls[i + 1].startswith((" ", "\t"))
+                and not ls[i + 1].lstrip().startswith(("'", '"'))]
+        if not cand:
+            return text, "resend"
+        i = rng.choice(cand)
+        ls[i], ls[i + 1] = ls[i + 1], ls[i]
+        return "\n".join(ls), op
     if op == "only_undeclared":
         # nothing but a parameter-less test that uses a fixture name in its body
         n = rng.choice(names)
